@@ -7,7 +7,17 @@ from .c01 import assemble
 def run(tier, seed, verdict):
     quick = tier != "thorough"
     runs = [ar.ArrayRun("MC_C15_quick.cfg" if quick else "MC_C15.cfg", seed, "calib", stride=1 if quick else 2)]
-    return assemble(
+    # ... and through tags / multi-tags / tagged features: the tagging vectors over calibrated arrays
+    from . import runner, c08, core
+    trun = runner.ExportRun("MC_NixTagging", "MC_C08_r1_quick.cfg", seed, "harness.c08", opts={"calibrated": True},
+                            stride=6 if quick else 1, label=c08.label, batch=200).run()
+    if trun.res.violation is not None:
+        verdict.violation("tlc/NixTagging/" + trun.res.violation[:80], {"tlc": trun.res.violation})
+    for f in trun.findings:
+        verdict.violation("calibrated_" + f["key"], f["detail"], f.get("replay"))
+    if not trun.counters.get("vectors"):
+        raise core.MachineryError("no calibrated tagging vector executed")
+    level, cov, assumptions = assemble(
         "C15", verdict, runs, lambda f: True,
         ["CalibrationLeavesRaw", "RefusedUnchanged", "AssignFrame"],
         "set / change / clear sequences of coefficient lists (length 0-5, zeros included) and origins (None, 0, non-zero) "
@@ -17,8 +27,17 @@ def run(tier, seed, verdict):
         "iteration) through two long-lived handles and a fresh one must return those doubles (dtype float64 iff "
         "calibrated, the stored element type otherwise) while the stored dataset keeps the raw values",
         ["floating-point rounding for large values is outside the generated domain",
-         "tag / multi-tag read paths are covered by the tagging check (C08)"],
+         "tag / multi-tag / tagged-feature reads: the rank-1 vectors of NixTagging executed on arrays with coefficients "
+         "(1, 2) and origin 0.5"],
         ("SetCoef:ok", "SetOrigin:ok", "Assign:ok", "WriteAll:ok"))
+    cov["states"] += trun.res.distinct
+    cov["transitions"] += trun.stats["exported"]
+    cov["evaluations"] += trun.stats["replayed"]
+    cov["traces_validated_against_impl"] += trun.stats["replayed"]
+    cov["distinct_nontrivial"] += trun.stats["replayed"]
+    cov["tag_reads_on_calibrated_arrays"] = {"vectors": trun.counters.get("vectors"), "calls": trun.counters.get("calls")}
+    cov["checker_cmd"] += " ;; " + trun.res.cmd
+    return level, cov, assumptions
 
 
 def replay(path):
